@@ -5,3 +5,5 @@ import MJ.Props.C09
 #print axioms MJ.C09.slice_only_error_is_zero_step
 #print axioms MJ.C09.sliceUnsized_eq_slice
 #print axioms MJ.C09.index_eq_python
+#print axioms MJ.C09.spec_pos
+#print axioms MJ.C09.spec_neg
